@@ -271,7 +271,7 @@ def check_any(ctx, case):
 
 
 FAMILIES = [
-    Family('single', check_any, strategy=lambda tier: single_case(), n=(1200, 40000)),
-    Family('estimates', check_any, strategy=lambda tier: estimate_case(), n=(500, 15000)),
+    Family('single', check_any, strategy=lambda tier: single_case(), n=(1200, 160000)),
+    Family('estimates', check_any, strategy=lambda tier: estimate_case(), n=(500, 60000)),
     Family('shipped', check_any, enumerate=enum_shipped),
 ]
